@@ -23,17 +23,25 @@ func pypiContains(constraints []string, version string) (bool, error) {
 	// Check if version is a prerelease (has prerelease or dev components)
 	isPrerelease := isPyPIPrerelease(v)
 
+	// Evaluate the range first so that malformed constraints are reported for every version
+	result, err := contains(e, constraints, version)
+	if err != nil {
+		return false, err
+	}
+
 	// If it's a prerelease, check if any constraint explicitly includes prereleases
 	if isPrerelease && !constraintsIncludePrerelease(constraints) {
 		return false, nil
 	}
 
-	return contains(e, constraints, version)
+	return result, nil
 }
 
 // constraintsIncludePrerelease checks if any constraint explicitly includes prerelease versions
 func constraintsIncludePrerelease(constraints []string) bool {
 	for _, constraint := range constraints {
+		// Spaces are not significant in VERS constraints
+		constraint = strings.ReplaceAll(constraint, " ", "")
 		// If constraint contains prerelease markers, then prereleases are explicitly allowed
 		if containsPrereleaseMarkers(constraint) {
 			return true
